@@ -76,6 +76,56 @@ def path_match(rpath, wpath):
     return len(rpath) == len(wpath) and all(seg_match(r, w) for r, w in zip(rpath, wpath))
 
 
+def precision_rule(repo, res):
+    """RT-PREC: closeness 10^-d needs every textual form returned by float_to_str to carry the configured number of
+    fractional digits: fixed-point formatting must take its digit count from precision.decimals (a constant count, or
+    the default 6 of format(x, 'f'), is too coarse for larger d), and digit strings may only be cut at precision.decimals."""
+    from ..dataflow import ReachingDefs
+    from ..core import canon
+
+    mod = repo.mod("commonroad/common/writer/file_writer_xml.py")
+    fn = mod.functions.get("float_to_str")
+    if fn is None:
+        raise AnalysisError("float_to_str missing")
+    rd = ReachingDefs(fn)
+    qn = "float_to_str"
+    n = 0
+
+    def from_precision(e, at):
+        t = canon(e, rd, at, [])
+        return "precision.decimals" in t
+
+    for c in ast.walk(fn):
+        if isinstance(c, ast.Call) and call_name(c) == "format" and len(c.args) == 2:
+            n += 1
+            spec = c.args[1]
+            res.check("RT-PREC", "format(value, spec): the digit count of spec comes from precision.decimals", from_precision(spec, rd.stmt_of(c)), mod, c, norm(c), "a fixed number of fractional digits (6 for a bare 'f') is kept whatever the configured precision: values differ by more than 10^-d after reading back for larger d", qualname=qn)
+        elif isinstance(c, ast.Call) and isinstance(c.func, ast.Attribute) and c.func.attr == "format" and isinstance(c.func.value, ast.Constant) and isinstance(c.func.value.value, str) and "f}" in c.func.value.value.replace(" ", ""):
+            n += 1
+            ok = any(from_precision(a, rd.stmt_of(c)) for a in c.args) or "precision" in c.func.value.value
+            res.check("RT-PREC", "'{:.Nf}'.format(value): N comes from precision.decimals", ok, mod, c, norm(c), "a fixed number of fractional digits is kept whatever the configured precision", qualname=qn)
+        elif isinstance(c, ast.JoinedStr):
+            for v in c.values:
+                if isinstance(v, ast.FormattedValue) and v.format_spec is not None:
+                    n += 1
+                    res.check("RT-PREC", "f-string format spec takes its digit count from precision.decimals", from_precision(v.format_spec, rd.stmt_of(c)), mod, c, norm(c), "a fixed number of fractional digits is kept whatever the configured precision", qualname=qn)
+        elif isinstance(c, ast.Call) and call_name(c) in ("np.format_float_positional", "numpy.format_float_positional"):
+            n += 2
+            pk = [k.value for k in c.keywords if k.arg == "precision"]
+            ok = (len(pk) == 1 and from_precision(pk[0], rd.stmt_of(c))) or (not pk and len(c.args) == 1)
+            res.check("RT-PREC", "format_float_positional keeps precision.decimals digits (or all)", ok, mod, c, norm(c), "a fixed number of fractional digits is kept whatever the configured precision", qualname=qn)
+        elif isinstance(c, ast.Call) and call_name(c) in ("round", "np.round", "np.around") and len(c.args) >= 1:
+            n += 1
+            ok = len(c.args) == 2 and from_precision(c.args[1], rd.stmt_of(c))
+            res.check("RT-PREC", "rounding uses precision.decimals", ok, mod, c, norm(c), "the value is rounded to a fixed number of digits whatever the configured precision", qualname=qn)
+        elif isinstance(c, ast.Subscript) and isinstance(c.slice, ast.Slice) and c.slice.lower is None and c.slice.upper is not None:
+            n += 1
+            t = canon(c.slice.upper, rd, rd.stmt_of(c), [])
+            res.check("RT-PREC", "fractional digits are cut exactly at precision.decimals", t == "precision.decimals", mod, c, norm(c), "fewer (or a fixed number of) fractional digits than configured are kept", qualname=qn)
+    if n < 2:
+        raise AnalysisError("float_to_str: only %d formatting constructs recognised (2 confirmed by hand)" % n)
+
+
 def run(repo, res, tier):
     res.rule("RT-READ", "every emitted element / attribute / text is looked up by the reader as the same kind at the same place", 120)
     res.rule("RT-WRITTEN", "every schema-allowed name the reader looks up is emitted by the writer", 30)
@@ -83,6 +133,21 @@ def run(repo, res, tier):
     res.rule("RT-NAMEMAP", "attribute-name maps of writer and reader agree / invert each other", 40)
     res.rule("RT-ENUM", "text<->enum / boolean encodings are mutually inverse and exhaustive", 12)
     res.rule("RT-ORDER", "ordered collections keep their order; x,y <-> indices 0,1", 12)
+    res.rule("RT-PREC", "the number formatter keeps precision.decimals fractional digits on every path", 2)
+    precision_rule(repo, res)
+    res.rule("RT-KEY", "goal lanelets are keyed by the position of their goal state on both sides", 3)
+    from ..keyrule import goal_table_keys, writer_goal_keys
+
+    rmod_ = repo.mod("commonroad/common/reader/file_reader_xml.py")
+    wmod_ = repo.mod("commonroad/common/writer/file_writer_xml.py")
+    grf = rmod_.classes.get("GoalRegionFactory")
+    ppn = wmod_.classes.get("PlanningProblemXMLNode")
+    if grf is None or "create_from_xml_node" not in grf.methods or ppn is None or "create_node" not in ppn.methods:
+        raise AnalysisError("GoalRegionFactory.create_from_xml_node / PlanningProblemXMLNode.create_node missing")
+    for key, node, ok, why in goal_table_keys(grf.methods["create_from_xml_node"]):
+        res.check("RT-KEY", "reader files goal lanelets under %s (%s)" % (norm(key), why), ok, rmod_, node, "GoalRegionFactory stores goal lanelets under %s" % norm(key), "goal lanelets are attached to another goal state than the one they were written for: " + why, qualname="GoalRegionFactory.create_from_xml_node")
+    for node, ok in writer_goal_keys(ppn.methods["create_node"]):
+        res.check("RT-KEY", "writer looks goal lanelets up with the index of the goal state (%s)" % norm(node)[:60], ok, wmod_, node, "PlanningProblemXMLNode consults %s" % norm(node)[:80], "the lanelets written with a goal state are those of another goal state", qualname="PlanningProblemXMLNode.create_node")
 
     cx = c03.Ctx(repo, res)
     w, xsd, wmod = cx.w, cx.xsd, cx.mod
@@ -394,4 +459,6 @@ def run(repo, res, tier):
     bad = [l for l in wleaves if l.kind == "text" and l.path[-1] in ("x", "y") and l.source and l.source.endswith("]") and l.source[-3:] in ("[0]", "[1]") and {"x": "[0]", "y": "[1]"}[l.path[-1]] != l.source[-3:]]
     idx = [l for l in wleaves if l.kind == "text" and l.path[-1] in ("x", "y") and l.source and l.source[-3:] in ("[0]", "[1]")]
     res.check("RT-ORDER", "writer takes x from index 0 and y from index 1 (%d indexed sites)" % len(idx), not bad, wmod, bad[0].origin if bad else None, "writer coordinate %s <- %s" % (("/".join(bad[0].path), bad[0].source) if bad else ("", "")), "coordinates are swapped on writing", qualname=bad[0].fn if bad else "Point")
+    if cx.w.unresolved:
+        raise AnalysisError("the writer model could not interpret what is appended at: %s" % "; ".join("%s:%d %s" % (f, ln, t) for f, t, ln in cx.w.unresolved[:5]))
     return {"writer_leaves": len(wleaves), "reader_lookups": len(rlook)}
